@@ -52,9 +52,13 @@ class Printer:
             if isinstance(e.op, ast.Mult):
                 return "(%s * %s)" % (a, b)
             if isinstance(e.op, ast.Mod):
+                if isinstance(e.right, ast.Constant) and isinstance(e.right.value, int) and e.right.value > 0:
+                    return "(%s %% %s)" % (a, b)
                 if not (isinstance(e.right, ast.Name) and e.right.id in self.consts):
                     raise LeanGenError("modulus is not a module constant")
                 return "(%s %% %s)" % (a, b)
+            if isinstance(e.op, ast.FloorDiv) and isinstance(e.right, ast.Constant) and isinstance(e.right.value, int) and e.right.value > 0:
+                return "(%s / %s)" % (a, b)
             raise LeanGenError("operator %s" % type(e.op).__name__)
         if isinstance(e, ast.Call) and isinstance(e.func, ast.Name):
             if e.func.id == "inv" and len(e.args) == 1:
@@ -179,6 +183,12 @@ def function_to_lean(fnode, consts, tuple_params, module=None, global_int=None):
         if isinstance(st, ast.Return):
             ret = pr.expr(st.value)
             break
+        if isinstance(st, ast.If) and not st.orelse and len(st.body) == 1 and isinstance(st.body[0], ast.Assign) \
+                and len(st.body[0].targets) == 1 and isinstance(st.body[0].targets[0], ast.Name):
+            # `if c: x = e`   ==   x := if c then e else x     (conditional re-assignment of one local)
+            t = st.body[0].targets[0].id
+            lets.append((lname(t), "(if %s then %s else %s)" % (pr.expr(st.test), pr.expr(st.body[0].value), lname(t))))
+            continue
         if isinstance(st, ast.If) and len(st.body) == 1 and isinstance(st.body[0], ast.Return) \
                 and isinstance(st.body[0].value, ast.Constant) and st.body[0].value.value is True:
             # `if c: return True` followed by `return False`  ==  the proposition c
